@@ -120,7 +120,7 @@ class LG:
             "trailing_comma", "chain_multibody", "nested_call_arg", "cond_expr", "backslash", "comprehension", "where_single", "where_chain", "lambda_own_line_chain",
             "decoy_default_arg", "string_noise_line", "def_by_name", "def_by_name_docstring", "lambda_var", "three_chain_args",
             "def_nested_by_name", "kwarg_lambda", "factory_lambda", "kwarg_const_after", "user_wrapper_const", "two_param_elsewhere", "after_multiline_string", "cond_lambda_arg", "cond_lambda_arg", "cond_lambda_two_calls", "cond_lambda_two_calls", "list_lambda_arg", "or_lambda_arg", "dict_lambda_arg", "wrapped_lambda_arg",
-            "outer_bracket_continuation", "outer_bracket_continuation", "first_arg_wrapper_const", "backslash_string_decoy", "paren_lambda_names", "after_multiline_lambda_close", "unrelated_lambda_not_arg", "unrelated_lambda_not_arg",
+            "outer_bracket_continuation", "outer_bracket_continuation", "posonly_single", "first_arg_wrapper_const", "first_arg_wrapper_const", "backslash_string_decoy", "paren_lambda_names", "after_multiline_lambda_close", "unrelated_lambda_not_arg", "unrelated_lambda_not_arg",
         ])
         p = self.pname()
         B = lambda **kw: self.body(p, **kw)  # noqa
@@ -276,6 +276,11 @@ class LG:
             if form == "second":
                 return t, False, True, f"r = keep(\n{{IND}}    FLAG, ds.Select(\n{{IND}}    lambda {p}: {cont}\n{{IND}}))", "ml-outer"
             return t, False, True, f"r = ds.Select([\n{{IND}}    FLAG, lambda {p}: {cont}\n{{IND}}][1])", "ml-outer"
+        if t == "posonly_single":
+            # a lambda whose one parameter is positional-only: a one-parameter lambda like any other
+            (b1, f) = B()
+            b2, _ = self.body("q2")
+            return t, True, True, r.choice([f"r = ds.{self.op()}(lambda {p}, /: {b1})", f"r = ds.Select(lambda {p}, /: {b1}).Select(lambda q2: {b2})", f"r = ds.Select(lambda {p}: {b1}).Select(lambda q2, /: {b2})"]), f
         if t == "first_arg_wrapper_const":
             # a constant-body lambda handed to a helper as its FIRST argument, the helper passes it on; another first-argument lambda
             # with the same parameter on the line
@@ -283,7 +288,8 @@ class LG:
             b1, f = B()
             if r.random() < 0.3:
                 # ... or two lambdas that differ in nothing but a default value (no part of the code python keeps)
-                return t, False, True, f"r = with_flag(lambda {p}, *, k_=1: {p}.x + k_, ds).Select(lambda {p}, *, k_=2: {p}.x + k_)", "default-only-difference"
+                d1, d2 = r.choice([("1", "2"), ("-1", "-2"), ("(1, 2)", "(3, 4)"), ("LO", "HI"), ("1", "LO"), ("'a'", "'b'")])
+                return t, False, True, f"r = with_flag(lambda {p}, *, k_={d1}: {p}.f(k_), ds).Select(lambda {p}, *, k_={d2}: {p}.f(k_))", "default-only-difference"
             return t, False, True, r.choice([f"r = with_flag(lambda {p}: {self.k}, ds).Select(lambda {p}: {b1})", f"r = with_flag(lambda {p}: {self.k}, ds.Select(lambda {p}: {b1}))",
                                              f"r = with_flag(lambda {p}: 's{self.k}', ds.Select(lambda {p}: {b1}).Select(lambda {p}: {self.k}))"]), "constant-body"
         if t == "backslash_string_decoy":
@@ -359,6 +365,7 @@ class LG:
 HEADER = modgen.DS_HEADER + '''
 import contextlib
 FLAG = [True, True]
+LO, HI = 10, 20
 def helper(f, *a): return True
 def keep(a, b): return b
 def then(s, f): return s.Select(f)
